@@ -49,17 +49,6 @@ def case_strategy(opts=None, max_ops=5, executors=None):
             # the advertised counts must hold for every execution, not only the first
             "twice": draw(st.booleans()),
         }
-        # recorded known finding: a region store of a zero-size source advertises source.npartitions tasks but has none to run;
-        # keep that combination out of the generated campaign (it has its own corpus probe)
-        from vp.prog import eval_numpy as _ev
-
-        if case["sinks"]:
-            _vals = _ev(prog)
-            for s_ in case["sinks"]:
-                if s_["cls"].startswith("region") and np.asarray(_vals[s_["node"]].v).size == 0:
-                    s_["cls"] = "fresh"
-                    for k_ in ("before", "after", "explicit_full", "open_ends", "tmul", "full_slices", "shard_region", "shift", "axis", "how"):
-                        s_.pop(k_, None)
         if e in ("threads", "processes"):
             case["parallel"] = draw(st.booleans())
             case["batch_size"] = draw(st.sampled_from([None, None, 1, 2, 3, 100]))
